@@ -217,10 +217,25 @@ func mergeAuthorizerHealthCheckEvents() *eventsMergerImpl[dbs.DbHealthCheck] {
 	return newEventsMerger[dbs.DbHealthCheck](TagAuthorizerHealthCheck, withUniqueEventOverwrite())
 }
 
+// mergeAuthorizerBurnEvents adds up the burns of one burner in a block: the
+// handler adds the amount to total_burn, so overwriting would lose all but the last.
 func mergeAuthorizerBurnEvents() *eventsMergerImpl[state.Burn] {
-	return newEventsMerger[state.Burn](TagAuthorizerBurn, withUniqueEventOverwrite())
+	return newEventsMerger[state.Burn](TagAuthorizerBurn, withBurnAmountsAdded())
 }
 
+func withBurnAmountsAdded() eventMergeMiddleware {
+	return withEventMerge(func(a, b *state.Burn) (*state.Burn, error) {
+		sum, err := currency.AddCoin(a.Amount, b.Amount)
+		if err != nil {
+			return nil, err
+		}
+		a.Amount = sum
+		return a, nil
+	})
+}
+
+// mergeAddBridgeMintEvents keeps every mint: the handler adds each amount to
+// the signers' total_mint and records the mint nonce.
 func mergeAddBridgeMintEvents() *eventsMergerImpl[BridgeMint] {
-	return newEventsMerger[BridgeMint](TagAddBridgeMint, withUniqueEventOverwrite())
+	return newEventsMerger[BridgeMint](TagAddBridgeMint)
 }
